@@ -24,20 +24,21 @@ type Ev struct {
 	B  bool          `json:"b,omitempty"`
 	N  int           `json:"n,omitempty"`
 
-	Leaders []string `json:"leaders,omitempty"` // instances with IsLeader()==true at this instant
-	LTok    []string `json:"ltok,omitempty"`    // their Token() at the same instant
-	Rec     *RecView `json:"rec,omitempty"`     // live record of the instance's group at this instant
-	Snap    []ISnap  `json:"snap,omitempty"`    // quiescent snapshot
-	Recs    map[string]*RecView `json:"recs,omitempty"` // q: live record of every other group
+	Leaders []string            `json:"leaders,omitempty"` // instances with IsLeader()==true at this instant
+	LTok    []string            `json:"ltok,omitempty"`    // their Token() at the same instant
+	Rec     *RecView            `json:"rec,omitempty"`     // live record of the instance's group at this instant
+	Snap    []ISnap             `json:"snap,omitempty"`    // quiescent snapshot
+	Recs    map[string]*RecView `json:"recs,omitempty"`    // q: live record of every other group
 }
 
 type RecView struct {
-	Rev   uint64 `json:"rev"`
-	ID    string `json:"id"`
-	Token string `json:"token"`
-	Prio  int    `json:"prio"`
-	By    string `json:"by"`
-	Raw   string `json:"raw,omitempty"`
+	Rev   uint64        `json:"rev"`
+	ID    string        `json:"id"`
+	Token string        `json:"token"`
+	Prio  int           `json:"prio"`
+	By    string        `json:"by"`
+	Raw   string        `json:"raw,omitempty"`
+	At    time.Duration `json:"at,omitempty"` // when this revision was written
 }
 
 type ISnap struct {
@@ -59,9 +60,9 @@ type ISnap struct {
 	StopDone bool   `json:"stopdone,omitempty"`
 	Started  bool   `json:"started,omitempty"`
 	Cut      bool   `json:"cut,omitempty"`
-	WQ       int    `json:"wq"`   // undelivered events of the instance's active watcher (-1: none active)
-	WDeliv   int    `json:"wd"`   // events delivered to it
-	Pend     int    `json:"pend"` // pending gated ops of the instance
+	WQ       int    `json:"wq"`               // undelivered events of the instance's active watcher (-1: none active)
+	WDeliv   int    `json:"wd"`               // events delivered to it
+	Pend     int    `json:"pend"`             // pending gated ops of the instance
 	OwnRev   uint64 `json:"ownrev,omitempty"` // revision of the instance's latest acknowledged successful write
 	WOpen    int    `json:"wopen,omitempty"`  // watchers of the instance that were handed out and never stopped
 }
@@ -90,14 +91,14 @@ type Inst struct {
 	inStopCall  int
 	stopDone    bool // a stop call returned nil and no Start since
 
-	gauge     int
-	nProm     int
-	nDem      int
-	terms     []*Term
-	healthIdx int
-	lastObs   bool
+	gauge       int
+	nProm       int
+	nDem        int
+	terms       []*Term
+	healthIdx   int
+	lastObs     bool
 	statusStuck bool
-	notifyQ   chan string
+	notifyQ     chan string
 }
 
 func (in *Inst) cut() bool { return in.crashed || in.partitioned }
@@ -113,7 +114,7 @@ func parseRec(m *Msg) *RecView {
 	if m == nil {
 		return nil
 	}
-	rv := &RecView{Rev: m.Rev, By: m.By}
+	rv := &RecView{Rev: m.Rev, By: m.By, At: m.At}
 	var p struct {
 		ID    string `json:"id"`
 		Token string `json:"token"`
@@ -150,9 +151,9 @@ func (m *recMetrics) IncTransitions(l prometheus.Labels) {
 	m.in.w.point("Metrics.IncTransitions", m)
 	m.in.w.evL(Ev{K: "transition", I: m.in.spec.ID, S: l["from_state"], S2: l["to_state"]})
 }
-func (m *recMetrics) IncFailures(prometheus.Labels)                 {}
-func (m *recMetrics) IncAcquireAttempts(prometheus.Labels)          {}
-func (m *recMetrics) IncTokenValidationFailures(prometheus.Labels)  {}
+func (m *recMetrics) IncFailures(prometheus.Labels)                             {}
+func (m *recMetrics) IncAcquireAttempts(prometheus.Labels)                      {}
+func (m *recMetrics) IncTokenValidationFailures(prometheus.Labels)              {}
 func (m *recMetrics) ObserveHeartbeatDuration(time.Duration, prometheus.Labels) {}
 func (m *recMetrics) ObserveLeaderDuration(time.Duration, prometheus.Labels)    {}
 
@@ -252,8 +253,9 @@ func (in *Inst) create() error {
 		in.nProm++
 		t := &Term{Inst: id, Token: token, TStart: w.now(), ctx: ctx}
 		in.terms = append(in.terms, t)
+		termNo := len(in.terms)
 		ls, lt := w.leadersNow()
-		w.ev(Ev{K: "promote", I: id, S: token, B: el.IsLeader(), N: len(in.terms), Leaders: ls, LTok: lt, Rec: parseRec(w.store.Live(in.group(), w.now()))})
+		w.ev(Ev{K: "promote", I: id, S: token, B: el.IsLeader(), N: termNo, Leaders: ls, LTok: lt, Rec: parseRec(w.store.Live(in.group(), w.now()))})
 		w.unlock()
 		w.signal()
 		if in.spec.NoPromoteBlock {
@@ -262,8 +264,13 @@ func (in *Inst) create() error {
 		<-ctx.Done()
 		w.lock()
 		t.CtxDone, t.TCtxDone = true, w.now()
-		w.ev(Ev{K: "promote.ctxdone", I: id, S: token, N: len(in.terms)})
+		w.ev(Ev{K: "promote.ctxdone", I: id, S: token, N: termNo})
 		w.unlock()
+		w.signal()
+		if in.spec.PromoteLinger > 0 {
+			// the application's clean-up after the cancellation takes this long
+			time.Sleep(in.spec.PromoteLinger)
+		}
 	})
 	el.OnDemote(func() {
 		w.point("OnDemote", in)
